@@ -2735,9 +2735,14 @@ class Mesh:
                     # Found a region with a lower boundary - start stepping through
                     # y-connections from here
                     break
-                # note, if no region with connections['lower']=None is found, then some
-                # arbitrary region will be 'first_region' after this loop. This is OK,
-                # as this region must be part of a periodic group, which we will handle.
+            else:
+                # No region with connections['lower']=None is left, so the remaining
+                # regions belong to periodic groups. Start from the first of them, so
+                # that quantities integrated along the group (poloidal_distance,
+                # zShift) start at the first core cell in y-index order (the poloidal
+                # location of the lower X-point), as documented.
+                i = 0
+                first_region = region_list[0]
 
             # Find all the regions connected in the y-direction to 'first_region' and
             # add them to 'group'. Remove them from 'region_list' since each region can
